@@ -428,9 +428,9 @@ Proof. exact (fun f c m1 m2 => conj (fun H => H) (fun H => H)). Qed.
 Print Assumptions C05_prefix_same_def.
 
 Theorem C05_esc_class_def : forall c0,
-  esc_class c0 = plain c0 && valid c0 && esc_okb (top_fuel c0) (build_self c0)
-                 && globals_free (build_recursive (top_fuel c0) c0).
-Proof. exact (fun c0 => eq_refl). Qed.
+  esc_class0 c0 = plain c0 && valid c0 && esc_okb (top_fuel c0) (build_self c0) /\
+  esc_class c0 = esc_class0 c0 && globals_free (build_recursive (top_fuel c0) c0).
+Proof. exact (fun c0 => conj eq_refl eq_refl). Qed.
 Print Assumptions C05_esc_class_def.
 
 Theorem C05_esc_okb_def : forall f c,
@@ -470,16 +470,17 @@ Proof. exact gmw_display_not_from_tail. Qed.
 Print Assumptions C05_gmw_display_not_from_tail.
 
 (** (1) for [parse_top]: no token after the [--] is a help or version request -- a help/version
-    outcome of [bin pre.. -- t1..] is the outcome of [bin pre.. -- t2..] for every [t2], the empty one included *)
+    outcome of [bin pre.. -- t1..] is the outcome of [bin pre.. -- t2..] for every [t2], the empty one included
+    (class [esc_class0]: global arguments allowed) *)
 Theorem C05_parse_top_display_not_from_tail : forall c0 bin pre t1 t2 e,
-  esc_class c0 = true -> is_set s_no_binary_name c0 = false -> c_bin_name c0 <> None ->
+  esc_class0 c0 = true -> is_set s_no_binary_name c0 = false -> c_bin_name c0 <> None ->
   parse_top c0 (bin :: pre ++ dashdash :: t1) = OErr e -> is_display (e_kind e) = true ->
   parse_top c0 (bin :: pre ++ dashdash :: t2) = OErr e.
 Proof. exact parse_top_display_not_from_tail. Qed.
 Print Assumptions C05_parse_top_display_not_from_tail.
 
 Theorem C05_do_parse_display_not_from_tail : forall c0 pre t1 t2 e,
-  esc_class c0 = true -> do_parse c0 (pre ++ dashdash :: t1) = OErr e -> is_display (e_kind e) = true ->
+  esc_class0 c0 = true -> do_parse c0 (pre ++ dashdash :: t1) = OErr e -> is_display (e_kind e) = true ->
   do_parse c0 (pre ++ dashdash :: t2) = OErr e.
 Proof. exact do_parse_display_not_from_tail. Qed.
 Print Assumptions C05_do_parse_display_not_from_tail.
